@@ -26,7 +26,8 @@ mod e2e {
 	use ldk_verif_harness::sim::{self, Net, Wire};
 	use lightning::events::Event;
 	use lightning::ln::channelmanager::{PaymentId, RecentPaymentDetails};
-	use lightning::ln::functional_test_utils::get_payment_preimage_hash;
+	use lightning::ln::functional_test_utils::{get_payment_preimage_hash, test_legacy_channel_config};
+	use lightning::util::config::MaxDustHTLCExposure;
 	use lightning::chain::ChannelMonitorUpdateStatus;
 	use lightning::ln::channel_state::OutboundHTLCSource;
 	use lightning::ln::outbound_payment::{RecipientOnionFields, Retry, RetryableSendFailure};
@@ -152,7 +153,8 @@ mod e2e {
 					Event::PaymentPathSuccessful { payment_id, path, .. } => {
 						if let Some(p) = self.pays.iter().position(|x| x.id == *payment_id) { let mid = self.pays[p].mid; texts.push((mid, format!("pathok:{}:{}", mid, self.part_of(p, path.hops[0].short_channel_id)))); }
 					},
-					Event::PaymentPathFailed { payment_id, path, payment_failed_permanently, short_channel_id, .. } => {
+					Event::PaymentPathFailed { payment_id, path, payment_failed_permanently, short_channel_id, failure, .. } => {
+						if std::env::var("C03_DEBUG").is_ok() { eprintln!("PPF {:?}", failure); }
 						if let Some(p) = self.pays.iter().position(|x| Some(x.id) == *payment_id) {
 							let mid = self.pays[p].mid; let part = self.part_of(p, path.hops[0].short_channel_id);
 							perm.insert(part, *payment_failed_permanently);
@@ -455,7 +457,13 @@ ans.push_str(&self.tried); self.tried.clear();
 					}
 				} else if r < 99 { self.recent_checked(); }
 			}
-			// drain: complete paused monitor updates, reconnect, let MPP parts time out at the recipient, deliver everything
+			let tag = format!("{}{}", if abandoned { ":abandoned" } else { "" }, match asyncv { Some(v) => format!(":async{}", v), None => String::new() });
+			self.drain_and_judge(&[p], bal0, disconnected, &tag);
+		}
+		/// drain: complete paused monitor updates, reconnect, let MPP parts time out at the recipient, deliver everything;
+		/// then the implementation-side oracles (independent of the model) for the payments `ps` sent since `bal0` was read
+		fn drain_and_judge(&mut self, ps: &[usize], bal0: u64, disconnected: Option<(usize, usize)>, tag: &str) {
+			let p = *ps.last().unwrap();
 			while !self.paused.is_empty() || !self.to_reconnect.is_empty() { self.resume_one(); }
 			if let Some(pr) = disconnected { self.net.reconnect(pr.0, pr.1); self.observe(); }
 			for phase in 0..6 {
@@ -468,24 +476,144 @@ ans.push_str(&self.tried); self.tried.clear();
 				}
 				for i in 1..3 { self.others_events(i); }
 				self.flush(None);
-				if self.pays[p].sent_ev + self.pays[p].failed_ev > 0 && self.sender_htlcs().is_empty() && self.quiescent() { break; }
+				if ps.iter().all(|p| self.pays[*p].sent_ev + self.pays[*p].failed_ev > 0) && self.sender_htlcs().is_empty() && self.quiescent() { break; }
 				// undelivered / incomplete MPP: the recipient's timer fails the held parts back
 				if phase < 5 { for i in 1..3 { self.net.nodes[i].node.timer_tick_occurred(); self.net.pump(i); self.others_events(i); } }
 			}
 			self.recent_checked();
 			// implementation-side oracle, independent of the model
-			let pay = &self.pays[p];
 			let tr = self.log.join(" | ");
-			if pay.sent_ev + pay.failed_ev != 1 { self.rec.oracle_fail(format!("payment {} ended with {} PaymentSent + {} PaymentFailed events :: {}", pay.mid, pay.sent_ev, pay.failed_ev, tr)); }
-			if (pay.sent_ev == 1) != pay.recipient_claimed { self.rec.oracle_fail(format!("payment {}: PaymentSent={} but recipient PaymentClaimed={} :: {}", pay.mid, pay.sent_ev, pay.recipient_claimed, tr)); }
-			// every HTLC of the payment that was resolved (failed) at the sender produced its PaymentPathFailed, unless the payment had succeeded
-			if pay.sent_ev == 0 { for part in pay.failed_htlcs.iter() { if !pay.path_failed.contains(part) { self.rec.oracle_fail(format!("payment {}: HTLC of part {} was resolved (failed) at the sender for an unknown payment / untracked part: no event produced :: {}", pay.mid, part, tr)); } } }
+			let mut expect = 0;
+			for p in ps.iter() {
+				let pay = &self.pays[*p];
+				if pay.sent_ev + pay.failed_ev != 1 { self.rec.oracle_fail(format!("payment {} ended with {} PaymentSent + {} PaymentFailed events although none of its HTLCs is pending any more (listed by the sender: {}) :: {}", pay.mid, pay.sent_ev, pay.failed_ev, self.listed(*p), tr)); }
+				if (pay.sent_ev == 1) != pay.recipient_claimed { self.rec.oracle_fail(format!("payment {}: PaymentSent={} but recipient PaymentClaimed={} :: {}", pay.mid, pay.sent_ev, pay.recipient_claimed, tr)); }
+				// every HTLC of the payment that was resolved (failed) at the sender produced its PaymentPathFailed, unless the payment had succeeded
+				if pay.sent_ev == 0 { for part in pay.failed_htlcs.iter() { if !pay.path_failed.contains(part) { self.rec.oracle_fail(format!("payment {}: HTLC of part {} was resolved (failed) at the sender for an unknown payment / untracked part: no event produced :: {}", pay.mid, part, tr)); } } }
+				if pay.sent_ev == 1 { expect += pay.total + pay.fee; }
+			}
 			let bal1 = self.balance();
-			let expect = if pay.sent_ev == 1 { pay.total + pay.fee } else { 0 };
-			if self.sender_htlcs().is_empty() && bal0 as i128 - bal1 as i128 != expect as i128 { self.rec.oracle_fail(format!("payment {}: sender balance fell by {} msat, expected {} :: {}", pay.mid, bal0 as i128 - bal1 as i128, expect, tr)); }
+			if self.sender_htlcs().is_empty() && bal0 as i128 - bal1 as i128 != expect as i128 { self.rec.oracle_fail(format!("payment {}: sender balance fell by {} msat, expected {} :: {}", self.pays[p].mid, bal0 as i128 - bal1 as i128, expect, tr)); }
 			self.sender_balance = bal1;
-			let class = format!("pay:{}parts:{}{}{}", self.pays[p].parts.len(), if self.pays[p].sent_ev == 1 { "sent" } else { "failed" }, if abandoned { ":abandoned" } else { "" }, match asyncv { Some(v) => format!(":async{}", v), None => String::new() });
+			let class = format!("pay:{}parts:{}{}", self.pays[p].parts.len(), if self.pays[p].sent_ev == 1 { "sent" } else { "failed" }, tag);
 			*self.rec.classes.entry(class).or_insert(0) += 1;
+		}
+		/// how `list_recent_payments` lists payment `p` right now
+		fn listed(&self, p: usize) -> &'static str {
+			for r in self.net.nodes[0].node.list_recent_payments() {
+				let (id, n) = match r { RecentPaymentDetails::AwaitingInvoice { payment_id } => (payment_id, "AwaitingInvoice"), RecentPaymentDetails::Pending { payment_id, .. } => (payment_id, "Pending"),
+					RecentPaymentDetails::Fulfilled { payment_id, .. } => (payment_id, "Fulfilled"), RecentPaymentDetails::Abandoned { payment_id, .. } => (payment_id, "Abandoned") };
+				if id == self.pays[p].id { return n; }
+			}
+			"not listed"
+		}
+		/// deliver / forward / let the recipient act until the only message left anywhere is node 1's final `revoke_and_ack` for
+		/// node 0 (c0 is then idle but for that RAA); false if that point was not reached
+		fn run_to_final_raa(&mut self, p: usize) -> bool {
+			for _ in 0..400 {
+				let only_raa = self.net.q.iter().all(|(k, q)| if *k == (1, 0) { q.len() == 1 && matches!(q.front(), Some(Wire::Raa(_))) } else { q.is_empty() });
+				if std::env::var("C03_DEBUG").is_ok() { eprintln!("HC q={:?} decided={} np={}", self.net.q.iter().map(|(k, q)| (*k, q.iter().map(|w| w.kind()).collect::<Vec<_>>())).collect::<Vec<_>>(), self.pays[p].decided, self.net.nodes[1].node.needs_pending_htlc_processing()); }
+				if only_raa && self.pays[p].decided && !self.net.nodes[1].node.needs_pending_htlc_processing() { return true; }
+				if let Some((i, j)) = self.net.any_queued() { self.deliver(i, j); }
+				for i in 1..3 { if self.net.nodes[i].node.needs_pending_htlc_processing() { self.net.forward(i); } self.others_events(i); }
+				if self.net.nodes[0].node.needs_pending_htlc_processing() { self.net.forward(0); self.observe(); }
+				self.flush(None);
+				if self.quiescent() && self.net.any_queued().is_none() { return false; }
+			}
+			false
+		}
+		/// HOLDING-CELL scenario (sender config: legacy channel, max_dust_htlc_exposure = FeeRateMultiplier(5000)):
+		/// an outbound HTLC is queued in c0's holding cell — because a ChannelMonitorUpdate of c0 is still in progress
+		/// (`how` 0, 1) or because c0 awaits the peer's revoke_and_ack (`how` 2) — and, if `refuse`, the sender's fee
+		/// estimate falls before the holding cell is released, so that `send_htlc` refuses the HTLC at release time (its
+		/// value no longer fits the dust-exposure limit). Release: 0 = the monitor update completes
+		/// (channel_monitor_updated); 1 = the peer disconnects, the update completes meanwhile, the holding cell is freed by
+		/// channel_reestablish; 2 = the peer's revoke_and_ack. The refused HTLC never left the node: the model is fed
+		/// `fail` for it when it is gone from the channel (read from list_channels), the real sender must report
+		/// PaymentPathFailed + PaymentFailed and stop listing the payment.
+		fn hc_payment(&mut self, mid: u64, how: u64, refuse: bool) {
+			self.log.clear();
+			let bal0 = self.balance();
+			let set_fee = |ctx: &Self, v: u32| { *ctx.net.nodes[0].fee_estimator.sat_per_kw.lock().unwrap() = v; };
+			// baseline estimate 506 sat/kW: dust-exposure limit 2_530_000 msat (at 253: 1_265_000 msat, below the buffered dust
+			// threshold of 2_310 sat, where no dust HTLC can be sent at all)
+			set_fee(self, 506);
+			let amt0 = 50_000 + self.rng.below(100) * 1000;
+			let mut ps = vec![];
+			let p0 = match self.send(mid, 1, vec![(vec![0, 1], vec![0], amt0)]) { Some(p) => p, None => { set_fee(self, 253); return } };
+			ps.push(p0);
+			if !self.run_to_final_raa(p0) { self.rec.discarded += 1; self.drain_and_judge(&ps, bal0, None, ":hc-setup-missed"); set_fee(self, 253); return; }
+			let mut next_mid = mid + 1;
+			let mut held: Vec<(String, u32)> = vec![];
+			if how < 2 {
+				{ let mut q = self.net.persisters[0].update_rets.lock().unwrap(); q.clear(); q.push_back(ChannelMonitorUpdateStatus::InProgress); }
+				self.deliver(1, 0);
+				self.net.persisters[0].update_rets.lock().unwrap().clear();
+				if self.net.pending_updates(0, 0).is_empty() { self.rec.discarded += 1; self.drain_and_judge(&ps, bal0, None, ":hc-setup-missed"); set_fee(self, 253); return; }
+				self.log.push("final RAA of c0 handled with the monitor update left in progress".into());
+				// the HTLC of the first payment has left the channel, but fail_htlc / finalize_claims run only when the RAA's
+				// monitor update completes: the observed removal is handed to the model then
+				held = self.buf.drain(..).collect();
+			} else {
+				self.deliver(1, 0); self.flush(None);
+				// a second small payment whose update_add + commitment_signed stay undelivered: c0 awaits the peer's RAA
+				let amt = 50_000 + self.rng.below(100) * 1000;
+				let r = self.nodes0_send_quiet(next_mid, amt);
+				next_mid += 1;
+				match r { Some(pb) => ps.push(pb), None => { self.drain_and_judge(&ps, bal0, None, ":hc-setup-missed"); set_fee(self, 253); return; } }
+			}
+			let amt1 = 1_300_000 + self.rng.below(900) * 1000;
+			let p1 = match self.send(next_mid, 1, vec![(vec![0, 1], vec![0], amt1)]) { Some(p) => p, None => { self.paused.push(0); self.drain_and_judge(&ps, bal0, None, ":hc-send-refused"); set_fee(self, 253); return; } };
+			ps.push(p1);
+			let part1 = self.pays[p1].parts[0].0;
+			let hash1 = self.pays[p1].hash;
+			let queued = self.live_of(p1).0 == 1 && !self.sender_htlcs().values().any(|h| *h == hash1);
+			self.log.push(format!("payment {} of {} msat sent over c0: {}", next_mid, amt1, if queued { "in the holding cell" } else { "NOT in the holding cell" }));
+			if self.rng.chance(1, 2) { self.dup_send(p1); }
+			if refuse { set_fee(self, 253); self.log.push("sender's fee estimate falls 506 -> 253 sat/kW".into()); }
+			let mut disconnected = None;
+			match how {
+				0 => { for id in self.net.pending_updates(0, 0) { self.net.complete(0, 0, id); } self.buf.extend(held.drain(..)); self.observe(); self.log.push("monitor update of c0 completed".into()); },
+				1 => {
+					self.net.disconnect(0, 1); self.observe(); self.log.push("disconnect (0, 1)".into());
+					for id in self.net.pending_updates(0, 0) { self.net.complete(0, 0, id); } self.buf.extend(held.drain(..)); self.observe(); self.log.push("monitor update of c0 completed while disconnected".into());
+					self.flush(None);
+					self.net.reconnect(0, 1); self.observe(); self.log.push("reconnect (0, 1)".into());
+					for _ in 0..12 { if let Some((i, j)) = self.net.any_queued() { let re = matches!(self.net.q.get(&(i, j)).and_then(|q| q.front()), Some(Wire::Reestablish(_)) | Some(Wire::Ready(_)) | Some(Wire::ChanUpdate(_)) | Some(Wire::AnnSigs(_))); if !re { break; } self.deliver(i, j); } }
+				},
+				_ => {
+					// the peer answers the helper payment's commitment: its RAA releases the holding cell
+					for _ in 0..6 { if self.net.queued(0, 1) > 0 { self.deliver(0, 1); } }
+					if self.net.queued(1, 0) > 0 && matches!(self.net.q.get(&(1, 0)).and_then(|q| q.front()), Some(Wire::Raa(_))) { self.deliver(1, 0); }
+					self.log.push("peer's revoke_and_ack delivered".into());
+				},
+			}
+			let _ = &mut disconnected;
+			set_fee(self, 506);
+			self.observe();
+			// what became of the queued HTLC, read from the channel alone
+			let gone = self.live_of(p1).0 == 0 && !self.htlcs.values().any(|v| v.0 == p1);
+			if queued && gone {
+				self.log.push(format!("the queued HTLC of payment {} was refused at release and dropped from the channel", next_mid));
+				self.pays[p1].failed_htlcs.insert(part1);
+				self.buf.push((format!("fail {} {} 0 ?{}", next_mid, part1, part1), 0));
+				self.flush(None);
+				// truthful terminal outcome, at once: no HTLC of the payment is pending anywhere
+				let pay = &self.pays[p1];
+				if pay.failed_ev != 1 || pay.sent_ev != 0 { let tr = self.log.join(" | "); self.rec.oracle_fail(format!("payment {}: its only HTLC was refused when the holding cell was released (never sent, dropped from the channel) but the sender reported {} PaymentFailed / {} PaymentSent and lists the payment as {} :: {}", pay.mid, pay.failed_ev, pay.sent_ev, self.listed(p1), tr)); }
+				self.dup_free(p1);
+			}
+			let class = format!("hc:{}:{}:{}", ["monitor", "reestablish", "raa"][how as usize], if refuse { "feedrop" } else { "steady" }, if !queued { "notqueued" } else if gone { "refused" } else { "released" });
+			*self.rec.classes.entry(class).or_insert(0) += 1;
+			self.drain_and_judge(&ps, bal0, disconnected, &format!(":hc{}", how));
+			set_fee(self, 253);
+		}
+		/// a one-part payment 0 -> 1 over c0 whose messages are left in the queue
+		fn nodes0_send_quiet(&mut self, mid: u64, amt: u64) -> Option<usize> { self.send(mid, 1, vec![(vec![0, 1], vec![0], amt)]) }
+		/// after a terminal PaymentFailed the id must be free again (not listed): the oracle of "safe to retry"
+		fn dup_free(&mut self, p: usize) {
+			let l = self.listed(p);
+			if self.pays[p].failed_ev == 1 && l != "not listed" { let tr = self.log.join(" | "); self.rec.oracle_fail(format!("payment {} is still listed as {} after its PaymentFailed :: {}", self.pays[p].mid, l, tr)); }
 		}
 		fn recent_checked(&mut self) { self.flush(None); self.recent(); }
 		fn ticks(&mut self, n: usize) {
@@ -514,6 +642,32 @@ ans.push_str(&self.tried); self.tried.clear();
 				if ctx.broken { break; }
 				if ctx.net.nodes[0].node.list_channels().len() < 3 { break; } // a channel closed: start over with a fresh network
 				if ctx.rng.chance(1, 3) { let n = ctx.rng.range(1, 9) as usize; ctx.ticks(n); }
+			}
+			if !ctx.broken { ctx.ticks(10); }
+			std::mem::forget(ctx.net);
+		}
+		// holding-cell networks: sender with a tight dust-exposure limit; HTLCs queued behind an in-progress monitor update /
+		// an awaited RAA, refused at release when the fee estimate fell meanwhile; release by monitor completion,
+		// channel_reestablish, revoke_and_ack
+		let n_hc = if args.thorough { 24 } else { 4 } * args.scale;
+		for _ in 0..n_hc {
+			rec.directive("reset");
+			let mut c0 = test_legacy_channel_config();
+			c0.channel_config.max_dust_htlc_exposure = MaxDustHTLCExposure::FeeRateMultiplier(5_000);
+			let mut net = Net::new(3, vec![Some(c0), Some(test_legacy_channel_config()), Some(test_legacy_channel_config())]);
+			net.open(0, 1, 2_000_000, 500_000_000);
+			net.open(0, 1, 2_000_000, 500_000_000);
+			net.open(1, 2, 2_000_000, 500_000_000);
+			net.open(0, 2, 2_000_000, 500_000_000);
+			let mut ctx = Ctx { net, rec: &mut rec, rng: &mut rng, buf: vec![], group: 0, htlcs: BTreeMap::new(), live: BTreeSet::new(), ev_seen: vec![0; 3], pays: vec![], next_part: 1, log: vec![], sender_balance: 0, tried: String::new(), paused: vec![], to_reconnect: vec![], broken: false };
+			if std::env::var("C03_DEBUG").is_ok() { for f in [253u32, 400, 506, 800] { *ctx.net.nodes[0].fee_estimator.sat_per_kw.lock().unwrap() = f; eprintln!("DUMP fee={} {:?}", f, ctx.net.channel_dump(0)); } *ctx.net.nodes[0].fee_estimator.sat_per_kw.lock().unwrap() = 253; }
+			for k in 0..12u64 {
+				let how = k % 3;
+				let refuse = ctx.rng.chance(3, 4);
+				ctx.hc_payment(10 * k + 1, how, refuse);
+				if ctx.broken { break; }
+				if ctx.net.nodes[0].node.list_channels().len() < 3 { break; }
+				if ctx.rng.chance(1, 3) { let n = ctx.rng.range(1, 4) as usize; ctx.ticks(n); }
 			}
 			if !ctx.broken { ctx.ticks(10); }
 			std::mem::forget(ctx.net);
